@@ -948,6 +948,9 @@ class Eval:
             # in-memory state unknown after an earlier disk error in this process: only values are checked
             if 'ok' in res and res['ok'] != it.expected:
                 j.disc('C05', 'I-visible', op['i'], f'{name}: wrong value after an earlier disk error', got=_short(res['ok']), expected=_short(it.expected))
+            if 'err' in res and outcome != 'fail':
+                # the disk error is over (one-shot): requesting the value again has to recover, also through the same task object
+                j.disc('C05', 'I-recover', op['i'], f'{name}: request keeps failing after an earlier (transient) disk error', err=res['err'])
             for (n, it2, loc, ob) in self.touched:
                 loc.last_run = {'valid': False}
                 if 'ok' not in res:
